@@ -63,6 +63,18 @@ package varlink
 //@   ensures [sent C12] wcount == old(wcount) + 1 ==> wlastErr == name && wlastCont == false && wlastParams == parameters
 //@   ensures [unch C12] wcount == old(wcount) ==> wlastErr == old(wlastErr) && wlastCont == old(wlastCont) && wlastParams == old(wlastParams)
 
+//@ func (*Call).WantsMore {C01 C03 | safety: C10}
+//@   requires [nn] c != nil && c.In != nil
+//@   ensures [flag C01 C03] result == c.In.More
+
+//@ func (*Call).WantsUpgrade {C01 C18 | safety: C10}
+//@   requires [nn] c != nil && c.In != nil
+//@   ensures [flag C01 C18] result == c.In.Upgrade
+
+//@ func (*Call).IsOneway {C01 | safety: C10}
+//@   requires [nn] c != nil && c.In != nil
+//@   ensures [flag C01] result == c.In.Oneway
+
 //@ func (*Call).GetParameters {C03 C13 | safety: C10}
 //@   requires [nn] c != nil && c.In != nil
 //@   modifies pointee(p)
